@@ -22,6 +22,8 @@ import (
 	"time"
 
 	"go.dedis.ch/kyber/v3"
+	"go.dedis.ch/kyber/v3/suites"
+	"go.dedis.ch/kyber/v3/util/key"
 	"go.dedis.ch/onet/v3/network"
 	"onetverif/harness/h"
 )
@@ -62,7 +64,15 @@ func c08interleave(tk []string, cs *h.Case) (string, string) {
 	if !ok || !c08in(m["suite"], "ed", "g1", "g2") || !c08in(m["tlsv"], "12", "13") || !c08in(m["proof"], "own", "other", "swap") {
 		return "bad-op", ""
 	}
-	hn := c08node0(m["suite"])
+	// a listener of its own: the cases of other workers must not send their hellos in between
+	c08node0(m["suite"])
+	st := suites.MustFind(c08suiteName[m["suite"]])
+	hn, err0 := c08startNode(st, key.NewKeyPair(st))
+	if err0 != nil {
+		cs.Fail("harness", "cannot start a listener: "+err0.Error())
+		return "harness-error", ""
+	}
+	defer hn.r.Stop()
 	w := c08newWorld(m["suite"], hn.kp)
 	d := c08desc{role: "accept", suite: m["suite"], tlsv: m["tlsv"], op: "a", them: "-", ncerts: 1, der: "ok", signedby: "self", time: "ok",
 		uris: "new:a", cn: "new:a", sig: "a/cur/new:a", nonce: "ok", id: "a", via: "key", live: "none", decoy: "none"}
@@ -160,19 +170,24 @@ func c08interleave(tk []string, cs *h.Case) (string, string) {
 	return fmt.Sprintf("c1=%s:%s c2=%s:%s", r1.hs, r1.disp, r2.hs, r2.disp), r1.note + " " + r2.note
 }
 
-func c08interleaveGen(c *h.Ctx, yield func(*h.Case)) {
+// c08interleaveGen: the cases with a proof over the other handshake's nonce come early in the run (proofs = "other"),
+// the honest and the crossed ones later.
+func c08interleaveGen(c *h.Ctx, yield func(*h.Case), proofs ...string) {
 	for _, suite := range []string{"ed", "g1", "g2"} {
 		for _, tlsv := range []string{"12", "13"} {
 			if c.Pick(1, 0) == 1 && suite != "ed" && tlsv == "12" {
 				continue
 			}
-			for _, proof := range []string{"other", "own", "swap"} {
+			for _, proof := range proofs {
 				for i := 0; i < c.Pick(1, 8); i++ {
 					c.Count("class=interleave")
 					yield(&h.Case{Class: "interleave:" + proof + ":tls" + tlsv, Ops: []string{fmt.Sprintf("c08 interleave suite=%s tlsv=%s proof=%s", suite, tlsv, proof)}})
 				}
 			}
 		}
+	}
+	if proofs[0] != "other" {
+		return
 	}
 	for _, l := range []string{"c08 interleave suite=ed tlsv=13 proof=none", "c08 interleave suite=ed tlsv=13", "c08 interleave suite=p256 tlsv=13 proof=own"} {
 		c.Count("class=malformed")
